@@ -66,6 +66,16 @@ def check(rep, tier, seed):
             for f in (FILLS if rep_i == 0 else [rng.choice(FILLS)]):
                 cases.append("fold %s %s %s" % (fmt(sh), fmt(data), f))
 
+    # values at the top of the f64 range ON the diagonal (index sum = T/2): the average of a mirror pair is finite even when
+    # their sum is not; entries off the diagonal stay small (their SUM is the result, and may legitimately overflow)
+    def index_sums(sh):
+        return [sum(idx) for idx in itertools.product(*[range(n) for n in sh])]
+    for sh in [s_ for s_ in ([3], [5], [7], [3, 3], [2, 4], [5, 3], [2, 2, 3], [3, 1, 5], [2, 3, 2, 2]) if (sum(s_) - len(s_)) % 2 == 0]:
+        T = sum(sh) - len(sh)
+        for _ in range(3):
+            data = [str(rng.randrange(8, 16) * 2**1020) if 2 * sm_ == T else str(rng.randrange(0, 50)) for sm_ in index_sums(sh)]
+            cases.append("fold %s %s %s" % (fmt(sh), fmt(data), rng.choice(FILLS)))
+
     def nontrivial(c, m):
         toks = m.split()[1].split(",") if len(m.split()) > 1 else []
         return len(set(toks)) > 1
